@@ -3,15 +3,60 @@
 import json, os, subprocess
 
 CLAIMED = {
+ "C01": ("bookkeeping events on SSA (map deltas), dominating guards, typestate of the allotment map over the inlined scheduler with call-result facts",
+         "On every CFG path Σactual+Σtactic <= HandlersQuantity whenever the output can be written, and actual over-approximates the items in flight; with the confinement result (C20) this yields the bound for every schedule, divider and release order. The step from the invariant to the behavioural bound is the paper argument of DESIGN.md.",
+         "DESIGN.md section 5 C01"),
  "C02": ("typestate dataflow over SSA with inlining (item in hand: received -> forwarded exactly once), value-flow and who-may-access rules",
          "Safety half of exactly-once/tagged/FIFO: single mover proven by context analysis, exactly one successful output send per received item on every CFG path, tag identity by SSA value equality, no buffering of items, handlers call Handle then release once each. Liveness (eventual delivery) is not decided.",
          "DESIGN.md section 5 C02"),
+ "C03": ("buffer typestate over the inlined goroutine, item-flow automaton, dominating size guards on normalised comparisons",
+         "The invariant concat(outputs)++buffer == accepted inputs is preserved by every operation the scheduler can perform, in any order; non-empty and size clauses from guards. Timing is irrelevant by construction.",
+         "DESIGN.md section 5 C03"),
+ "C04": ("loop-shape recognition (counted batch loop), typestate batch/delay alternation, symbolic form of the sleep amount",
+         "Necessary structure only: Quantity writes per batch, a delay between any two batches, sleep >= Interval - time since the batch start. The numeric bounds are real-time statements and are not decided.",
+         "DESIGN.md section 5 C04"),
+ "C05": ("guard/assignment shape of the top-up, provenance of the strategic map, sortedness typestate",
+         "Necessary structure only: exact deficit top-up with strict rejection, shares = divider(all priorities sorted, H) and kept fresh; occupancy under saturation is a liveness/arithmetic statement and is not decided.",
+         "DESIGN.md section 5 C05"),
+ "C06": ("select-shape rules, dominating-guard rules for blocking waits, round-structure typestate",
+         "Necessary conditions for progress only (non-blocking input polls, guarded waits, two-phase round, zero-share rejection); eventual delivery is not statically decidable here.",
+         "DESIGN.md section 5 C06"),
  "C07": ("dominating-guard and path rules on SSA CFG: returns of the scheduling loop, drained marking, for-all helpers, deferred wait loop, signal placement, error origin",
          "Termination safety: signals can only follow 'all inputs observed drained and nothing in flight' on every path; err carries only divider-check errors. 'Promptly' and eventual termination are not decided.",
          "DESIGN.md section 5 C07"),
+ "C08": ("payload provenance (clone/alias) with mode-edge pruning, typestate send->release, dominance with intervening-writer scan, escape analysis of the buffer",
+         "A delivered slice is a fresh clone in copy mode; in no-copy mode nothing can write the buffer between delivery and release (or ever again after a v1 stop).",
+         "DESIGN.md section 5 C08"),
+ "C09": ("classification of every flush call site by its dominating guards; predicate form; typestate emit->passAt reset",
+         "Structure: flushes happen only when full / timed out / at end of input (unite: oversize, would not fit); the real-time clause is not decided.",
+         "DESIGN.md section 5 C09"),
+ "C10": ("who-may-write rule for passAt, must-flush path rule in the ticker clause, symbolic form of the ticker period",
+         "Necessary structure only for the latency bound: no per-element timer reset, expired => flush, ticker period formula and its error exits; the bound itself is a real-time statement.",
+         "DESIGN.md section 5 C10"),
+ "C11": ("whole-slice ingest/forward automaton, payload provenance, fit-facts typestate",
+         "Unite never splits an input slice: exactly one whole ingest or whole forward per slice, flush before a slice that would not fit.",
+         "DESIGN.md section 5 C11"),
+ "C12": ("item-flow automaton, closed-path typestate with call-result pruning, reachability of Sleep, symbolic form of the sleep amount",
+         "Lossless ordered pass-through by a single mover, straight-line closing after the input closes, no pause inside a batch; 'within about ceil(N/Q) intervals' is not decided.",
+         "DESIGN.md section 5 C12"),
+ "C13": ("order-type dataflow (predicate abstraction over orderings of 0, minimum, Interval/Quantity) with recognised floor definitions",
+         "Every return of Recalculate is checked in every order type that reaches it: validity, minimality, error regions. Found the minimum-boundary defect (fixed). Arithmetic enters only through the two recognised floor definitions and a paper lemma.",
+         "DESIGN.md section 5 C13"),
+ "C14": ("write-set rule, credit/debit accounting on SSA values, canonical effect summaries compared across v1 and v2",
+         "Conservation of the dividend on every path for Rate and Fair, extras to a prefix, untouched other entries, v1==v2 summaries. Rate's monotonicity/closeness depend on float rounding and are not decided.",
+         "DESIGN.md section 5 C14"),
+ "C15": ("enumeration of dynamic divider calls with argument provenance, sortedness typestate, constructor guard rules, reuse of B7/B10/E4/E6",
+         "The divider only ever sees sorted duplicate-free lists, a bounded dividend and a non-nil map; a faulty division is reported, never spent, and termination still waits for in-flight items; zero shares are rejected over the registered priorities (defect found and fixed).",
+         "DESIGN.md section 5 C15"),
  "C16": ("blocking-operation inventory per goroutine, SCC decomposition of every CFG cycle with stop-exit requirement, defer run-order rules",
          "Every wait reachable from a v1 goroutine watches every stop signal of that goroutine or is an enumerated bounded idiom; every loop has a bounded trip count or leaves on stop; defers complete the breakers last. Found the waitCalcTactic hang (fixed) and the Simple graceful/stop finding (known). No real-time bound is derived.",
          "DESIGN.md section 5 C16"),
+ "C17": ("channel-capacity provenance, clause-body rules, same-block lookup rule, reuse of B11/X1/D2/P2",
+         "Structure that makes Add/RemoveInput effective on return and keeps the other invariants independent of the priority set.",
+         "DESIGN.md section 5 C17"),
+ "C18": ("loop-shape and guard rules on the helper functions, for-all shape recognition, parameter use analysis",
+         "Predicates are total for-alls over the sorted combinations with member-wise zero tests, PickUp loops have the right bounds and results, suitable => non-fatal, monotone in the limit; subset enumeration completeness and float tolerance are not decided.",
+         "DESIGN.md section 5 C18"),
  "C19": ("go-statement inventory, signal placement and defer run-order rules, child-goroutine wake-up and join rules, cycle-exit check",
          "Every goroutine entry signals only in its last deferred calls, children are joined or bound to a channel closed at termination, no cycle lacks an exit. Relies on the user contract for releases and reads.",
          "DESIGN.md section 5 C19"),
